@@ -1,8 +1,654 @@
 package engb
 
-// Events of the specialised properties; filled in per property.
+import (
+	"encoding/json"
+	"fmt"
+	"strings"
+	"testing/synctest"
 
-func (r *run) restPatch(e Ev)       {}
-func (r *run) rogue(e Ev)           {}
-func (r *run) resetCollection(e Ev) {}
-func (r *run) wireEvent(e Ev)       {}
+	"github.com/orda-io/orda/client/pkg/model"
+	"github.com/orda-io/orda/server/schema"
+	"go.mongodb.org/mongo-driver/bson"
+	"google.golang.org/protobuf/proto"
+
+	"verif/sim/enga"
+	"verif/sim/kernel"
+)
+
+// sendAs issues one RPC as the named pseudo client and drives it to its answer (canonical order,
+// no faults). It returns the result; a hang is reported by pump.
+func (r *run) sendAs(name, method string, req proto.Message) callResult {
+	w := r.w
+	ep := &endpoint{t: w.tr, name: name}
+	done := make(chan callResult, 1)
+	go func() {
+		m, err := ep.t.issue(ep.name, method, req)
+		done <- callResult{msg: m, err: err}
+	}()
+	synctest.Wait()
+	f := &focus{calls: map[*call]bool{}, owners: map[string]bool{}}
+	for _, c := range w.tr.byState("queued") {
+		if c.client == name {
+			f.calls[c] = true
+			f.owners[callOwner(c)] = true
+		}
+	}
+	r.pump(f, nil, nil, false, "")
+	synctest.Wait()
+	select {
+	case res := <-done:
+		return res
+	default:
+		return callResult{err: fmt.Errorf("no answer")}
+	}
+}
+
+func refused(res callResult) bool {
+	if res.err != nil {
+		return true
+	}
+	if pp, ok := res.msg.(*model.PushPullMessage); ok {
+		for _, p := range pp.PushPullPacks {
+			if p.GetPushPullPackOption().HasErrorBit() {
+				return true
+			}
+		}
+	}
+	return false
+}
+
+// ---------------------------------------------------------------- C16: rogue client
+
+var rogueMutations = []string{"unknown-duid", "empty-duid", "empty-key", "other-key", "opt-random", "readonly-push", "readonly-create",
+	"cp-future", "cp-cseq-future", "cp-zero", "cp-swapped", "cp-nil", "ops-drop-first", "ops-repeat", "ops-reverse", "ops-foreign-cuid",
+	"ops-seq0", "ops-nil-id", "wrong-type", "unknown-collection", "unregistered-cuid", "admin-cuid", "empty-cuid", "no-packs",
+	"client-admin", "client-unknown-collection", "client-empty-cuid", "patch-unknown-collection", "patch-bad-json", "patch-array-json",
+	"patch-non-document", "collection-empty-name", "reset-unknown", "foreign-duid", "other-collection", "client-other-collection"}
+
+func (r *run) baseRequest(i int, needOps bool) *model.PushPullMessage {
+	var cands []*call
+	for _, c := range r.w.tr.calls {
+		if c.method != "ProcessPushPull" || !r.mon.honest[c.client] || c.state != "finished" {
+			continue
+		}
+		req, _ := c.decodeReq().(*model.PushPullMessage)
+		if req == nil || len(req.PushPullPacks) == 0 {
+			continue
+		}
+		if needOps {
+			n := 0
+			for _, p := range req.PushPullPacks {
+				n += len(p.Operations)
+			}
+			if n == 0 {
+				continue
+			}
+		}
+		cands = append(cands, c)
+	}
+	if len(cands) == 0 {
+		return nil
+	}
+	return cands[mod(i, len(cands))].decodeReq().(*model.PushPullMessage)
+}
+
+func (r *run) rogue(e Ev) {
+	g := kernel.NewRng(e.S + 99)
+	mut := e.Mode
+	if mut == "" {
+		mut = rogueMutations[g.Intn(len(rogueMutations))]
+	}
+	needOps := strings.HasPrefix(mut, "ops-") || mut == "readonly-push"
+	var method string
+	var req proto.Message
+	switch {
+	case strings.HasPrefix(mut, "client-"):
+		a := r.actor(e.A)
+		m := &model.ClientMessage{Header: model.NewMessageHeader(model.RequestType_CLIENTS), Collection: a.collection, Cuid: a.cuid, ClientAlias: a.name, SyncType: model.SyncType_MANUALLY}
+		switch mut {
+		case "client-admin":
+			m.Cuid = "!@#$OrdaPatchAPI"
+		case "client-unknown-collection":
+			m.Collection = "nope"
+		case "client-empty-cuid":
+			m.Cuid = ""
+		case "client-other-collection":
+			m.Collection = r.otherCollection(a.collection)
+			registered := false
+			for _, d := range r.docsOf(schema.CollectionNameClients) {
+				if id, _ := get(d, "_id"); id == a.cuid {
+					registered = true
+				}
+			}
+			if !registered {
+				return // its collection was reset: registering elsewhere is a fresh registration
+			}
+		}
+		method, req = "ProcessClient", m
+	case strings.HasPrefix(mut, "patch-"):
+		a := r.actor(e.A)
+		m := &model.PatchMessage{Collection: a.collection, Key: "pk", Json: `{"a":1}`}
+		switch mut {
+		case "patch-unknown-collection":
+			m.Collection = "nope"
+		case "patch-bad-json":
+			m.Json = `{"a":`
+		case "patch-array-json":
+			m.Json = `[1,2]`
+		case "patch-non-document":
+			for _, d := range a.dts {
+				if d.kind != "doc" {
+					m.Key = d.key
+				}
+			}
+		}
+		method, req = "PatchDocument", m
+	case mut == "collection-empty-name":
+		method, req = "CreateCollection", &model.CollectionMessage{Collection: ""}
+	case mut == "reset-unknown":
+		method, req = "ResetCollection", &model.CollectionMessage{Collection: "nope"}
+	default:
+		base := r.baseRequest(e.A, needOps)
+		if base == nil {
+			return
+		}
+		p := base.PushPullPacks[g.Intn(len(base.PushPullPacks))]
+		if needOps {
+			for _, q := range base.PushPullPacks {
+				if len(q.Operations) > 0 {
+					p = q
+				}
+			}
+		}
+		base.PushPullPacks = []*model.PushPullPack{p}
+		switch mut {
+		case "unknown-duid":
+			p.DUID = g.UID()
+		case "empty-duid":
+			p.DUID = ""
+		case "empty-key":
+			p.Key = ""
+		case "other-key":
+			p.Key = "zz"
+		case "opt-random":
+			p.Option = uint32(g.Intn(128))
+		case "readonly-push":
+			p.Option |= uint32(model.PushPullBitReadOnly)
+		case "readonly-create":
+			p.Option = uint32(model.PushPullBitReadOnly | model.PushPullBitCreate)
+			p.Key = "rokey"
+			p.DUID = g.UID()
+		case "cp-future":
+			p.CheckPoint.Sseq += 1000
+		case "cp-cseq-future":
+			p.CheckPoint.Cseq += 1000
+		case "cp-zero":
+			p.CheckPoint = model.NewCheckPoint()
+		case "cp-swapped":
+			p.CheckPoint.Sseq, p.CheckPoint.Cseq = p.CheckPoint.Cseq, p.CheckPoint.Sseq
+		case "cp-nil":
+			p.CheckPoint = nil
+		case "ops-drop-first":
+			p.Operations = p.Operations[1:]
+			if len(p.Operations) == 0 {
+				return
+			}
+			p.CheckPoint.Cseq += 5
+			for _, op := range p.Operations {
+				op.ID.Seq += 5
+			}
+		case "ops-repeat":
+			p.Operations = append(p.Operations, p.Operations...)
+		case "ops-reverse":
+			for i, j := 0, len(p.Operations)-1; i < j; i, j = i+1, j-1 {
+				p.Operations[i], p.Operations[j] = p.Operations[j], p.Operations[i]
+			}
+		case "ops-foreign-cuid":
+			for _, op := range p.Operations {
+				op.ID.CUID = g.UID()
+			}
+		case "ops-seq0":
+			for _, op := range p.Operations {
+				op.ID.Seq = 0
+			}
+		case "ops-nil-id":
+			p.Operations[0].ID = nil
+		case "wrong-type":
+			p.Type = model.TypeOfDatatype((int(p.Type) + 1) % 4)
+		case "unknown-collection":
+			base.Collection = "nope"
+		case "other-collection":
+			base.Collection = r.otherCollection(base.Collection)
+		case "foreign-duid":
+			fd := r.foreignDUID(base.Collection, g)
+			if fd == "" {
+				return
+			}
+			p.DUID = fd
+		case "unregistered-cuid":
+			base.Cuid = g.UID()
+		case "admin-cuid":
+			base.Cuid = "!@#$OrdaPatchAPI"
+		case "empty-cuid":
+			base.Cuid = ""
+		case "no-packs":
+			base.PushPullPacks = nil
+		}
+		method, req = "ProcessPushPull", base
+	}
+	before := r.storeDigest()
+	foreignBefore := map[string]string{}
+	foreignDUID := ""
+	if pp, ok := req.(*model.PushPullMessage); ok && (mut == "foreign-duid" || mut == "other-collection") {
+		if mut == "foreign-duid" && len(pp.PushPullPacks) > 0 {
+			foreignDUID = pp.PushPullPacks[0].DUID
+		}
+		for n, k := range r.collNums() {
+			foreignBefore[n] = r.collPartition(n, k)
+		}
+	}
+	r.probe("rogue-sent")
+	r.probe("rogue-" + mut)
+	res := r.sendAs("rogue", method, req)
+	r.logf("rogue %s %s -> err=%v refused=%v", method, mut, res.err, refused(res))
+	r.trace.Str("rogue").Str(mut)
+	if res.err != nil && res.err.Error() == "no answer" {
+		r.fail("answered", r.prop+".answered", "no-answer/"+mut, "the mutated request (%s, %s) got no answer", method, mut)
+		return
+	}
+	after := r.storeDigest()
+	if refused(res) {
+		r.probe("rogue-refused")
+		if before != after {
+			r.fail("refuse", "C16.refused-changes-nothing", mut, "the request mutated by %q was refused (%v) but changed stored data:\n%s", mut, errText(res), diffText(before, after))
+			r.fail("iso", "C17.foreign-refused", mut+"/changed", "the request mutated by %q was refused (%v) but changed stored data:\n%s", mut, errText(res), diffText(before, after))
+		}
+	} else {
+		r.probe("rogue-accepted")
+		if mut == "other-collection" || mut == "client-other-collection" {
+			r.fail("iso", "C17.foreign-refused", mut+"/accepted", "a client registered in one collection sent a request (%s) that names another collection and it was not refused:\n%s", mut, diffText(before, after))
+		}
+		if mut == "foreign-duid" {
+			// the id may be ignored (the key decides), but nothing of the foreign collection may be
+			// returned or changed
+			pp, _ := req.(*model.PushPullMessage)
+			own := r.collNum(pp.GetCollection())
+			for n, k := range r.collNums() {
+				if k != own && foreignBefore[n] != "" && r.collPartition(n, k) != foreignBefore[n] {
+					r.fail("iso", "C17.foreign-refused", "foreign-duid/changed", "a request carrying the id of a datatype of collection %s changed that collection:\n%s", n, diffText(foreignBefore[n], r.collPartition(n, k)))
+				}
+			}
+			if resp, ok := res.msg.(*model.PushPullMessage); ok {
+				for _, p := range resp.PushPullPacks {
+					if p.DUID == foreignDUID && len(p.Operations) > 0 {
+						r.fail("iso", "C17.foreign-refused", "foreign-duid/read", "a request carrying the id of a datatype of another collection was answered with %d of its operations", len(p.Operations))
+					}
+				}
+			}
+		}
+	}
+}
+
+func errText(res callResult) string {
+	if res.err != nil {
+		return res.err.Error()
+	}
+	if pp, ok := res.msg.(*model.PushPullMessage); ok {
+		for _, p := range pp.PushPullPacks {
+			if p.GetPushPullPackOption().HasErrorBit() && len(p.Operations) > 0 {
+				return "error pack: " + string(p.Operations[0].Body)
+			}
+		}
+	}
+	return "refused"
+}
+
+func diffText(a, b string) string {
+	al, bl := strings.Split(a, "\n"), strings.Split(b, "\n")
+	am, bm := map[string]bool{}, map[string]bool{}
+	for _, l := range al {
+		am[l] = true
+	}
+	for _, l := range bl {
+		bm[l] = true
+	}
+	var sb strings.Builder
+	n := 0
+	for _, l := range al {
+		if !bm[l] && n < 6 {
+			sb.WriteString("  - " + clip(l, 300) + "\n")
+			n++
+		}
+	}
+	for _, l := range bl {
+		if !am[l] && n < 12 {
+			sb.WriteString("  + " + clip(l, 300) + "\n")
+			n++
+		}
+	}
+	return sb.String()
+}
+
+func (r *run) otherCollection(c string) string {
+	for _, x := range r.colls {
+		if x != c {
+			return x
+		}
+	}
+	return "nope"
+}
+
+// foreignDUID returns the id of a datatype stored in another collection than the given one.
+func (r *run) foreignDUID(coll string, g *kernel.Rng) string {
+	n := r.collNum(coll)
+	dts, _ := r.readStore()
+	var cands []string
+	for _, duid := range sortedKeys(dts) {
+		if dts[duid].doc.CollectionNum != n && dts[duid].doc.Key != "?orphan" {
+			cands = append(cands, duid)
+		}
+	}
+	if len(cands) == 0 {
+		return ""
+	}
+	return cands[g.Intn(len(cands))]
+}
+
+// ---------------------------------------------------------------- C17: collections
+
+// collPartition renders everything stored for one collection number (and its user collection).
+func (r *run) collPartition(name string, num int32) string {
+	var sb strings.Builder
+	skip := func(k string) bool { return k == "createdAt" || k == "updatedAt" || k == "at" }
+	for _, cn := range []string{schema.CollectionNameDatatypes, schema.CollectionNameOperations, schema.CollectionNameSnapshot, schema.CollectionNameClients} {
+		var lines []string
+		for _, d := range r.docsOf(cn) {
+			v, _ := get(d, "colNum")
+			if toInt(v) != int64(num) {
+				continue
+			}
+			var f bson.D
+			for _, e := range d {
+				if !skip(e.Key) {
+					f = append(f, e)
+				}
+			}
+			lines = append(lines, canonBSON(f))
+		}
+		sortStrings(lines)
+		fmt.Fprintf(&sb, "%s:%d\n%s\n", cn, len(lines), strings.Join(lines, "\n"))
+	}
+	var lines []string
+	for _, d := range r.docsOf(name) {
+		lines = append(lines, canonBSON(d))
+	}
+	sortStrings(lines)
+	fmt.Fprintf(&sb, "user:%d\n%s\n", len(lines), strings.Join(lines, "\n"))
+	return sb.String()
+}
+
+func sortStrings(s []string) {
+	for i := 1; i < len(s); i++ {
+		for j := i; j > 0 && s[j] < s[j-1]; j-- {
+			s[j], s[j-1] = s[j-1], s[j]
+		}
+	}
+}
+
+func (r *run) collNums() map[string]int32 {
+	out := map[string]int32{}
+	for _, d := range r.docsOf(schema.CollectionNameCollections) {
+		var cd schema.CollectionDoc
+		if decodeInto(d, &cd) == nil {
+			out[cd.Name] = cd.Num
+		}
+	}
+	return out
+}
+
+func (r *run) resetCollection(e Ev) {
+	name := r.colls[mod(e.A, len(r.colls))]
+	nums := r.collNums()
+	num := nums[name]
+	others := map[string]string{}
+	for n, k := range nums {
+		if n != name {
+			others[n] = r.collPartition(n, k)
+		}
+	}
+	r.probe("reset")
+	res := r.sendAs("admin", "ResetCollection", &model.CollectionMessage{Collection: name})
+	r.logf("reset collection %s(%d) -> %v", name, num, res.err)
+	if res.err != nil {
+		r.fail("iso", "C17.reset-exact", "reset-failed", "ResetCollection(%s) failed: %v", name, res.err)
+		return
+	}
+	// nothing with the old number may remain
+	for _, cn := range []string{schema.CollectionNameDatatypes, schema.CollectionNameOperations, schema.CollectionNameSnapshot, schema.CollectionNameClients} {
+		for _, d := range r.docsOf(cn) {
+			v, _ := get(d, "colNum")
+			if toInt(v) == int64(num) && r.collNums()[name] != num {
+				r.fail("iso", "C17.reset-exact", "leftover/"+cn, "after ResetCollection(%s) a document of its old number %d remains in %s: %s", name, num, cn, clip(canonBSON(d), 300))
+			}
+			if toInt(v) == int64(num) && r.collNums()[name] == num {
+				r.fail("iso", "C17.reset-exact", "not-removed/"+cn, "after ResetCollection(%s) a document of the collection remains in %s: %s", name, cn, clip(canonBSON(d), 300))
+			}
+		}
+	}
+	if n := len(r.docsOf(name)); n != 0 {
+		r.fail("iso", "C17.reset-exact", "user-documents-remain", "after ResetCollection(%s) its user collection still holds %d documents", name, n)
+	}
+	nums2 := r.collNums()
+	for n, k := range nums {
+		if n == name {
+			continue
+		}
+		if nums2[n] != k {
+			r.fail("iso", "C17.reset-exact", "other-collection-renumbered", "ResetCollection(%s) changed the number of %s from %d to %d", name, n, k, nums2[n])
+		}
+		if p := r.collPartition(n, k); p != others[n] {
+			r.fail("iso", "C17.reset-exact", "other-collection-changed", "ResetCollection(%s) changed documents of collection %s:\n%s", name, n, diffText(others[n], p))
+		}
+	}
+	// clients of the reset collection are gone: they have to register again
+	for _, a := range r.w.actors {
+		if a.collection == name {
+			a.connected = false
+			a.gone = true
+		}
+	}
+}
+
+// checkIsolation: collection numbers are distinct (C17.distinct-numbers).
+func (m *monitors) checkIsolation(r *run, dts map[string]*dtInfo) {
+	seen := map[int32]string{}
+	for _, d := range r.docsOf(schema.CollectionNameCollections) {
+		var cd schema.CollectionDoc
+		if decodeInto(d, &cd) != nil {
+			continue
+		}
+		if other, ok := seen[cd.Num]; ok {
+			r.fail("iso", "C17.distinct-numbers", "shared-number", "collections %s and %s share number %d", other, cd.Name, cd.Num)
+		}
+		seen[cd.Num] = cd.Name
+	}
+}
+
+// ---------------------------------------------------------------- C19: REST patch
+
+func (r *run) restPatch(e Ev) {
+	a := r.actor(e.A)
+	key := e.K
+	if key == "" {
+		key = "k1"
+	}
+	g := kernel.NewRng(e.S + 7)
+	target := e.Json
+	if target == "" {
+		target = kernel.Canon(enga.GenObject(g, 0, 3))
+	}
+	colNum := r.collNum(a.collection)
+	var existing *dtInfo
+	dts, _ := r.readStore()
+	for _, duid := range sortedKeys(dts) {
+		if dts[duid].doc.CollectionNum == colNum && dts[duid].doc.Key == key {
+			existing = dts[duid]
+		}
+	}
+	before := r.storeDigest()
+	r.probe("rest-patch")
+	res := r.sendAs("rest", "PatchDocument", &model.PatchMessage{Collection: a.collection, Key: key, Json: target})
+	r.logf("REST patch %s/%s -> %s : err=%v", a.collection, key, clip(target, 200), res.err)
+	if existing != nil && existing.doc.Type != model.TypeOfDatatype_DOCUMENT.String() {
+		if res.err == nil {
+			r.fail("rest", "C19.rest-refuses-non-document", "accepted", "PatchDocument on %s, which holds a %s, was accepted", key, existing.doc.Type)
+		} else if r.storeDigest() != before {
+			r.fail("rest", "C19.rest-refuses-non-document", "changed", "PatchDocument on a %s was refused but changed stored data", existing.doc.Type)
+		}
+		return
+	}
+	if res.err != nil {
+		r.fail("rest", "C19.rest-response-equals-target", "refused", "PatchDocument(%s/%s, %s) failed: %v", a.collection, key, clip(target, 300), res.err)
+		return
+	}
+	pm, _ := res.msg.(*model.PatchMessage)
+	if pm == nil {
+		return
+	}
+	if got := kernel.CanonBytes([]byte(pm.Json)); got != kernel.CanonBytes([]byte(target)) {
+		r.fail("rest", "C19.rest-response-equals-target", "response-differs", "PatchDocument(%s/%s) answered a document that is not the target:\n  target  : %s\n  response: %s", a.collection, key, clip(target, 400), clip(got, 400))
+	}
+	// the operations were appended: replaying the stored log gives the target
+	dts, _ = r.readStore()
+	found := false
+	for _, duid := range sortedKeys(dts) {
+		di := dts[duid]
+		if di.doc.CollectionNum != colNum || di.doc.Key != key {
+			continue
+		}
+		found = true
+		dt, errS := r.replay(di, uint64(len(di.ops)))
+		if errS != "" {
+			r.fail("rest", "C19.rest-ops-appended", "replay-error", "after the REST patch the stored log of %s cannot be replayed: %s", key, errS)
+			continue
+		}
+		if got := kernel.Canon(dt.ToJSON()); got != kernel.CanonBytes([]byte(target)) {
+			r.fail("rest", "C19.rest-ops-appended", "log-differs", "after the REST patch a replay of the stored log of %s is not the target:\n  target: %s\n  replay: %s", key, clip(target, 400), clip(got, 400))
+		}
+	}
+	if !found {
+		r.fail("rest", "C19.rest-ops-appended", "no-datatype", "PatchDocument(%s/%s) succeeded but no datatype is stored", a.collection, key)
+	}
+}
+
+// ---------------------------------------------------------------- wire-level actor (C06 / C07)
+
+type wireState struct {
+	lastReq   []byte
+	responses [][]byte
+}
+
+// wireEvent: the harness itself performs the exchange for the actor's datatypes, so it can also
+// send what a correct but unlucky client sends: the previous request once more, or apply an
+// earlier response again / late.
+func (r *run) wireEvent(e Ev) {
+	w := r.w
+	a := r.actor(e.A)
+	if !a.connected || a.realtime {
+		return
+	}
+	a.mu.Lock()
+	busy := a.syncing > 0
+	a.mu.Unlock()
+	if busy {
+		return
+	}
+	if a.wire == nil {
+		a.wire = &wireState{}
+	}
+	mode := e.Mode
+	apply := func(b []byte) {
+		var resp model.PushPullMessage
+		if proto.Unmarshal(b, &resp) != nil {
+			return
+		}
+		for _, p := range resp.PushPullPacks {
+			for _, d := range a.dts {
+				if d.key == p.Key {
+					pk := p
+					dd := d
+					msg, fp := safely(func() { dd.dt.ApplyPushPullPack(pk) })
+					if msg != "" {
+						r.fail("nocrash", r.prop+".client-crash", fp, "%s: applying a response to %s panicked: %s", a.name, dd.key, msg)
+						panic(abortRun{})
+					}
+				}
+			}
+		}
+	}
+	switch mode {
+	case "reapply", "stale":
+		if len(a.wire.responses) == 0 {
+			return
+		}
+		i := len(a.wire.responses) - 1
+		if mode == "stale" {
+			i = mod(e.N, len(a.wire.responses))
+		}
+		r.fault("resp-" + mode)
+		r.logf("%s applies response #%d again (%s)", a.name, i, mode)
+		apply(a.wire.responses[i])
+		synctest.Wait()
+		return
+	}
+	var reqB []byte
+	if mode == "repush" && a.wire.lastReq != nil {
+		reqB = a.wire.lastReq
+		r.fault("req-repush")
+	} else {
+		var packs []*model.PushPullPack
+		for _, d := range a.dts {
+			packs = append(packs, d.dt.CreatePushPullPack())
+		}
+		req := model.NewPushPullMessage(0, &model.Client{CUID: a.cuid, Collection: a.collection}, packs...)
+		reqB, _ = proto.Marshal(req)
+	}
+	var req model.PushPullMessage
+	_ = proto.Unmarshal(reqB, &req)
+	a.wire.lastReq = reqB
+	done := make(chan callResult, 1)
+	go func() {
+		m, err := a.ep.t.issue(a.name, "ProcessPushPull", &req)
+		done <- callResult{msg: m, err: err}
+	}()
+	synctest.Wait()
+	f := &focus{calls: map[*call]bool{}, owners: map[string]bool{}}
+	for _, c := range w.tr.byState("queued") {
+		if c.client == a.name {
+			f.calls[c] = true
+			f.owners[callOwner(c)] = true
+			if mode == "repush" {
+				c.copies = 2 // not a fresh request of an honest client: no monotonicity expectation
+			}
+		}
+	}
+	r.pump(f, nil, e.MF, false, "")
+	synctest.Wait()
+	select {
+	case res := <-done:
+		if res.err == nil && res.msg != nil {
+			b, _ := proto.Marshal(res.msg)
+			if e.Resp == "drop" {
+				r.fault("resp-drop")
+				a.wire.responses = append(a.wire.responses, b) // it may still arrive later ("stale")
+				return
+			}
+			a.wire.responses = append(a.wire.responses, b)
+			apply(b)
+		}
+	default:
+	}
+	synctest.Wait()
+}
+
+var _ = json.Marshal
